@@ -132,7 +132,7 @@ var keyPools = []keyPool{
 	{"uint8", []interface{}{uint8(1), uint8(2), uint8(0), uint8(255)}},
 	{"float64", []interface{}{float64(1.5), float64(-2), float64(0.25), float64(3)}},
 	{"bool", []interface{}{true, false}},
-	{"time", []interface{}{c15t0, c15t0.Add(time.Second), c15t0.Add(time.Hour).In(c15zone), time.Time{}}},
+	{"time", []interface{}{c15t0, c15t0.Add(250 * time.Millisecond), c15t0.Add(time.Hour).In(c15zone), time.Time{}}}, // two instants inside one second: keys must not be formed at second resolution
 	{"int64", []interface{}{int64(1 << 40), int64(-9), int64(3), int64(4)}},
 }
 
